@@ -13,6 +13,7 @@ package coreutils
 //@ extern (*types.Block).ID pure
 //@ extern (types.BlockHeader).ID pure
 //@ extern (*types.Block).Header pure
+//@   ensures result.ID() == b.ID() && result.ParentID == b.ParentID
 //@ extern (*types.Transaction).MerkleLeafHash pure
 //@ extern (*types.V2Transaction).MerkleLeafHash pure
 //
@@ -36,3 +37,10 @@ package coreutils
 //@ extern (consensus.State).TransactionWeight pure
 //@ extern (consensus.State).V2TransactionWeight pure
 //@ extern (consensus.State).MaxBlockWeight pure
+//@ extern consensus.ValidateOrphan
+//@   assigns nothing
+//@ extern consensus.ApplyHeader pure
+//@   ensures result.Index.ID == bh.ID()
+//@   ensures bh.ParentID != types.BlockID{} ==> result.Index.Height == s.Index.Height + 1
+//@ extern (consensus.State).MaxFutureTimestamp pure
+//@ extern (consensus.State).SufficientlyHeavierThan pure
